@@ -16,6 +16,24 @@ CHECKS = {
          "Oracle: multiset of sink writes and file contents == lines of the same events formatted alone. Exhaustive within the bounds.",
     note=SCHED_NOTE, technique="stateless model checking (controlled scheduler, preemption-bounded DFS over the instrumented implementation)",
     design="DESIGN.md section 3 C03"),
+ "C04": dict(
+    text="Stateless model checking of the real AsyncLogger (minimum buffer 100) under the cooperative scheduler: all schedules (<=2 preemptions, thorough 3) of 2-3 producers x 1-2 operations (events, events below the logger's level, raw writes) racing the worker at occupancies 0/98/99/100 for the three overflow policies, with a free, token-gated or parked (slow appender) worker; after Stop: no item twice, no unknown item, delivered + GetDiscardCounter() == submitted, Block => counter 0 and everything delivered.",
+    note=SCHED_NOTE, technique="stateless model checking (controlled scheduler, preemption-bounded DFS over the instrumented implementation)", design="DESIGN.md section 3 C04"),
+ "C05": dict(
+    text="Stateless model checking: (a) AsyncLogger.Stop against the draining worker at occupancies 0,1,2,50,98,99,100 (thorough: every 0..100) x 3 policies x worker idle / mid-append / parked behind a gate a helper opens: no deadlock, everything accepted is at the appender when Stop returns; (c) RollingFileAppender under rotation on the in-memory filesystem: no descriptor left after Stop (called twice), at most 2 descriptors whenever no write is in progress.",
+    note=SCHED_NOTE, technique="stateless model checking (controlled scheduler, preemption/tick-bounded DFS over the instrumented implementation)", design="DESIGN.md section 3 C05"),
+ "C06": dict(
+    text="Stateless model checking of the real AsyncLogger: the C04 schedules with the per-producer-order oracle (delivered items of one goroutine are a subsequence in submission order, events and raw writes alike) and, with the appender parked for the whole production phase, Discard/DiscardOldest log calls still return (a waiting call is a deadlock outcome).",
+    note=SCHED_NOTE, technique="stateless model checking (controlled scheduler, preemption-bounded DFS over the instrumented implementation)", design="DESIGN.md section 3 C06"),
+ "C12": dict(
+    text="Stateless model checking of raw Write through the AsyncLogger with callers that overwrite their buffer after every call: 1-2 writers x 2-3 writes, 1-2 appenders, appender-reference level settings '', ERROR, INFO~WARN, 3 policies, a slow appender; every appender sees each payload exactly once, unaltered, in per-writer order.",
+    note=SCHED_NOTE, technique="stateless model checking (controlled scheduler, preemption-bounded DFS over the instrumented implementation)", design="DESIGN.md section 3 C12"),
+ "C13": dict(
+    text="Stateless model checking of the real RollingFileAppender on an in-memory filesystem and virtual clock: all schedules (<=2 preemptions) x all placements of <=2-3 interval boundaries (the clock may cross a boundary at any time.Now call) of 1-2 writers x 2-3 writes, a pre-existing file, a Stop/Start cycle; every id exactly once over all files, file names name.<14 digits>, append-only opens, no write older than its file's name, single writer: a write after a boundary lands in a file of the new interval. Two known findings (writer or rotation suspended across two rotations) are matched by history predicates.",
+    note=SCHED_NOTE, technique="stateless model checking (controlled scheduler + virtual clock, preemption/tick-bounded DFS over the instrumented implementation)", design="DESIGN.md section 3 C13"),
+ "C19": dict(
+    text="Fault enumeration on top of the C13 model checking: every filesystem call (open, write, sync, close, readdir, remove) may fail (ENOENT / EIO / short write) within a fault budget of 2 (thorough 3), combined with boundary placements and schedules: no panic, no blocked call; when only creations fail nothing is lost and a later interval attempts creation again.",
+    note=SCHED_NOTE, technique="stateless model checking with exhaustive fault injection (deviation-bounded DFS)", design="DESIGN.md section 3 C19"),
 }
 
 m = {
